@@ -225,6 +225,7 @@ def decompose_and_order(graph, component, component_name, bo_start=0):
         f" It took {time.perf_counter() - start} seconds to find the Biconnected Components"
     )
     bubbles = []
+    bubble_names = dict()
     scaffold_graph = GFA()
     scaffold_node_types = dict()
     for n in artic_points:
@@ -248,12 +249,14 @@ def decompose_and_order(graph, component, component_name, bo_start=0):
             scaffold_graph.add_edge(node1, "+", node2, "+", 0)
 
         else:
-            bubble_index = len(bubbles)
+            # the name of a collapsed bubble has a blank, so it cannot clash with a GFA segment name
+            bubble_name = "bubble %d" % len(bubbles)
+            bubble_names[bubble_name] = len(bubbles)
             bubbles.append(bc_inside_nodes)
-            scaffold_graph.add_node(str(bubble_index))
-            scaffold_node_types[str(bubble_index)] = "b"
+            scaffold_graph.add_node(bubble_name)
+            scaffold_node_types[bubble_name] = "b"
             for end_node in bc_end_nodes:
-                scaffold_graph.add_edge(str(bubble_index), "+", end_node, "+", 0)
+                scaffold_graph.add_edge(bubble_name, "+", end_node, "+", 0)
 
     logger.info(f"  Bubbles: {len(bubbles)}")
     logger.info(f"  Scaffold graph: {len(scaffold_graph)} nodes")
@@ -299,7 +302,7 @@ def decompose_and_order(graph, component, component_name, bo_start=0):
             if scaffold_node_types[element] == "b":
                 offsets = [
                     int(new_graph[n].tags["SO"][1])
-                    for n in bubbles[int(element)]
+                    for n in bubbles[bubble_names[element]]
                     if new_graph[n].tags.get("SN") == ref_name
                 ]
                 if offsets:
@@ -318,7 +321,7 @@ def decompose_and_order(graph, component, component_name, bo_start=0):
         if node_type == "s":
             node_order[node] = (bo, 0)
         elif node_type == "b":
-            for i, n in enumerate(sorted(bubbles[int(node)])):
+            for i, n in enumerate(sorted(bubbles[bubble_names[node]])):
                 node_order[n] = (bo, i + 1)
         else:
             assert False
